@@ -56,6 +56,21 @@ func c03IsDeal(cs c03Case) bool { return strings.HasPrefix(cs.Field, "<dealing")
 
 var c03DealVariants = []string{"redeal", "redeal+wrong-share", "root-at-victim", "root-at-victim+wrong-share", "degree-1", "degree+1", "degree+2"}
 
+// c03DealShareVariants: the commitment E's honest code made is kept ("asdealt") or re-dealt, and the victim's share is the
+// NEGATED correct share (accepted by a check that compares x coordinates only) or the correct share of ANOTHER recipient
+// (accepted by a check that evaluates the commitment at the wrong index).  share + q is the same scalar: not a variant.
+var c03DealShareVariants = []string{"asdealt+negated-share", "asdealt+other-share", "redeal+negated-share", "redeal+other-share"}
+
+// c03DealSplit: "<base>+<what the victim's share is>" (wrong-share: a random value; negated-share; other-share)
+func c03DealSplit(alt string) (base, wrong string) {
+	for _, w := range []string{"wrong-share", "negated-share", "other-share"} {
+		if strings.HasSuffix(alt, "+"+w) {
+			return strings.TrimSuffix(alt, "+"+w), w
+		}
+	}
+	return alt, ""
+}
+
 // c03DealConsistent: variants in which E's messages are those of an honest dealer with other randomness
 func c03DealConsistent(alt string) bool { return alt == "redeal" || alt == "root-at-victim" }
 
@@ -421,10 +436,8 @@ func c03DealRewrite(s *Sim, rng *rand.Rand, cs c03Case, sp *c03DealSpec, out *c0
 			vsh = x
 		}
 	}
-	base, wrong := cs.Alt, false
-	if strings.HasSuffix(base, "+wrong-share") {
-		base, wrong = strings.TrimSuffix(base, "+wrong-share"), true
-	}
+	base, wrongKind := c03DealSplit(cs.Alt)
+	wrong := wrongKind != ""
 	if (wrong || base == "root-at-victim") && vsh == nil {
 		out.Note = "the victim receives no share from E"
 		return
@@ -443,6 +456,8 @@ func c03DealRewrite(s *Sim, rng *rand.Rand, cs c03Case, sp *c03DealSpec, out *c0
 		return true
 	}
 	switch base {
+	case "asdealt":
+		// E's own polynomial and commitment, untouched
 	case "redeal", "root-at-victim":
 		if d < 1 {
 			out.Note = "a constant polynomial has no higher coefficient to re-deal"
@@ -517,7 +532,8 @@ func c03DealRewrite(s *Sim, rng *rand.Rand, cs c03Case, sp *c03DealSpec, out *c0
 		out.Note = "harness: the re-dealt polynomial has no root at the victim"
 		return
 	}
-	if wrong {
+	switch wrongKind {
+	case "wrong-share":
 		for {
 			r := c03RandNonZero(rng)
 			if r.Cmp(vsh.y) != 0 {
@@ -525,6 +541,26 @@ func c03DealRewrite(s *Sim, rng *rand.Rand, cs c03Case, sp *c03DealSpec, out *c0
 				break
 			}
 		}
+	case "negated-share":
+		neg := new(big.Int).Mod(new(big.Int).Neg(vsh.y), c03TbQ)
+		if neg.Cmp(vsh.y) == 0 {
+			out.Note = "the victim's share is 0: its negation is the same share"
+			return
+		}
+		vsh.y = neg
+	case "other-share":
+		var other *sh
+		for _, x := range shares {
+			if x != vsh && x.y.Cmp(vsh.y) != 0 {
+				other = x
+				break
+			}
+		}
+		if other == nil {
+			out.Note = "E sends no other recipient a different share"
+			return
+		}
+		vsh.y = new(big.Int).Set(other.y)
 	}
 	// write back
 	arr.Kids = nil
@@ -605,10 +641,8 @@ func c03RunDealState(p *c03Proto, cs c03Case, sp *c03DealSpec) (out *c03Outcome)
 	}()
 	E, victim := party.ID(cs.Cheater), party.ID(cs.Victim)
 	rng := rand.New(rand.NewSource(cs.Seed))
-	base, wrong := cs.Alt, false
-	if strings.HasSuffix(base, "+wrong-share") {
-		base, wrong = strings.TrimSuffix(base, "+wrong-share"), true
-	}
+	base, wrongKind := c03DealSplit(cs.Alt)
+	wrong := wrongKind != ""
 	var dealt []*big.Int
 	polyDone, shareDone := false, false
 	note := ""
@@ -633,7 +667,8 @@ func c03RunDealState(p *c03Proto, cs c03Case, sp *c03DealSpec) (out *c03Outcome)
 			}
 			xv := c03IDScalarBig(victim)
 			switch base {
-			case "redeal":
+			case "redeal", "asdealt":
+				// (state level: E's commitment follows from the polynomial it is handed; "asdealt" = an honest dealer's fresh polynomial)
 			case "root-at-victim":
 				if refresh {
 					// f = x*g(x), g of degree d-1 with g(xv) = 0: shift g's constant term
@@ -701,9 +736,30 @@ func c03RunDealState(p *c03Proto, cs c03Case, sp *c03DealSpec) (out *c03Outcome)
 			}
 			right := c03EvalBig(dealt, c03IDScalarBig(victim))
 			var r *big.Int
-			for {
-				if r = c03RandNonZero(rng); r.Cmp(right) != 0 {
-					break
+			switch wrongKind {
+			case "negated-share":
+				if r = new(big.Int).Mod(new(big.Int).Neg(right), c03TbQ); r.Cmp(right) == 0 {
+					note = "the victim's share is 0: its negation is the same share"
+					return
+				}
+			case "other-share":
+				for _, id := range party.NewIDSlice(p.IDs) {
+					if id != E && id != victim {
+						if o := c03EvalBig(dealt, c03IDScalarBig(id)); o.Cmp(right) != 0 {
+							r = o
+							break
+						}
+					}
+				}
+				if r == nil {
+					note = "no other recipient with a different share"
+					return
+				}
+			default:
+				for {
+					if r = c03RandNonZero(rng); r.Cmp(right) != 0 {
+						break
+					}
 				}
 			}
 			ct, _ := pk.Enc(curve.MakeInt(c03ScalarOfBig(r)))
@@ -751,7 +807,11 @@ func c03DealExtra(c *ctx, prop string, judge func(p *c03Proto, out *c03Outcome))
 		if c.thorough() {
 			pos = 0
 		}
-		cases := c03DealCases(rand.New(rand.NewSource(c.res.Seed*1000003+977+int64(i))), prop, p, 2, false, c03DealVariants, pos)
+		vars := c03DealVariants
+		if prop == "C03" {
+			vars = append(append([]string{}, c03DealVariants...), c03DealShareVariants...)
+		}
+		cases := c03DealCases(rand.New(rand.NewSource(c.res.Seed*1000003+977+int64(i))), prop, p, 2, false, vars, pos)
 		t0 := time.Now()
 		outs := c03RunAll(p, cases)
 		c.res.Note("%s n=4 t=2: %d dealing cases in %.1f s", p.Name, len(cases), time.Since(t0).Seconds())
